@@ -121,6 +121,8 @@ func (in *interp) strBytes(s value) []*sym.Term {
 
 func strLen(s value) int {
 	switch s := s.(type) {
+	case *fmtstr:
+		panic(pathEnd{kind: "error", msg: "length of a string formatted from symbolic integers"})
 	case string:
 		return len(s)
 	case *symstr:
